@@ -441,10 +441,86 @@ def producer_carry_rules(repo, rep, m):
                 tests.append(n)
         if tests:
             rep.holds('R-CARRY', key, where(f, tests[0]), '%s tests its seconds against 60 (`%s`) before assembling the HP number' % (name, stmt_text(tests[0])[:60]))
+            carry_order_rule(rep, f, name)
         else:
             rep.violated('R-CARRY', key, where(f, splits[0]), '%s splits the angle with divmod(.., 60) and assembles D + M/100 + S/10000 without carrying a seconds field that rounds to 60, '
                          'as its sibling dec2hp does: %s' % (name, CARRY_WITNESS), expected='seconds rounded, 60 carried into the minutes (and 60 minutes into the degrees)',
                          actual='no test of the seconds against 60')
+
+
+def _tested_name(e):
+    """the variable a `... == 60` test looks at: x, round(x, p), x.round(p), np.round(x, p)"""
+    if isinstance(e, ast.Name):
+        return e.id
+    if isinstance(e, ast.Call):
+        if isinstance(e.func, ast.Attribute) and e.func.attr == 'round' and isinstance(e.func.value, ast.Name) and e.func.value.id not in ('np', 'numpy'):
+            return e.func.value.id
+        if e.args:
+            return _tested_name(e.args[0])
+    return None
+
+
+def carry_order_rule(rep, f, name):
+    """the carry is a chain: seconds == 60 -> minutes + 1 -> minutes == 60 -> degrees + 1.  The minutes must be LOOKED AT after the seconds
+    carry has been added to them (59 min 60 s is 60 min, i.e. the next degree); a test evaluated earlier - a mask computed up front, a test
+    hoisted above the increment - sees 59 and leaves D.60 behind.  Decided on the statement order of the function (straight-line code and
+    nested ifs; both forms of the repo: scalar ifs, boolean masks)."""
+    stmts = [n for n in ast.walk(f.node) if isinstance(n, ast.stmt)]
+    stmts.sort(key=lambda n: (n.lineno, n.col_offset))
+    pos = dict((id(n), i) for i, n in enumerate(stmts))
+
+    def stmt_of(node):
+        best = None
+        for st in stmts:
+            if st.lineno <= node.lineno and getattr(st, 'end_lineno', st.lineno) >= getattr(node, 'end_lineno', node.lineno):
+                if any(x is node for x in ast.walk(st)) and (best is None or pos[id(st)] > pos[id(best)]):
+                    # innermost statement whose own expressions (not its body) contain the node
+                    own = []
+                    for fld in ('test', 'value', 'targets', 'target'):
+                        o_ = getattr(st, fld, None)
+                        if isinstance(o_, list):
+                            own.extend(o_)
+                        elif o_ is not None:
+                            own.append(o_)
+                    if any(x is node for o in own for x in ast.walk(o)):
+                        best = st
+        return best
+    tests = {}      # variable -> [position of the statement that evaluates `var == 60`]
+    for n in ast.walk(f.node):
+        if isinstance(n, ast.Compare) and len(n.ops) == 1 and isinstance(n.ops[0], (ast.Eq, ast.GtE)) and isinstance(n.comparators[0], ast.Constant) \
+                and isinstance(n.comparators[0].value, (int, float)) and 59.9 < n.comparators[0].value <= 60:
+            v = _tested_name(n.left)
+            st = stmt_of(n)
+            if v is not None and st is not None:
+                tests.setdefault(v, []).append((pos[id(st)], n))
+    incs = {}       # variable -> [position of `var += 1` / `var[mask] += 1` / `var = var + 1`]
+    for st in stmts:
+        if isinstance(st, ast.AugAssign) and isinstance(st.op, ast.Add) and isinstance(st.value, ast.Constant) and st.value.value == 1:
+            t = st.target
+            if isinstance(t, ast.Subscript):
+                t = t.value
+            if isinstance(t, ast.Name):
+                incs.setdefault(t.id, []).append(pos[id(st)])
+        if isinstance(st, ast.Assign) and len(st.targets) == 1 and isinstance(st.targets[0], ast.Name) and isinstance(st.value, ast.BinOp) \
+                and isinstance(st.value.op, ast.Add) and isinstance(st.value.left, ast.Name) and st.value.left.id == st.targets[0].id \
+                and isinstance(st.value.right, ast.Constant) and st.value.right.value == 1:
+            incs.setdefault(st.targets[0].id, []).append(pos[id(st)])
+    key = 'R-CARRY::geodepy/angles.py::%s::minutes-carry-order' % name
+    # the middle link: a variable that is both incremented (by the seconds carry) and tested against 60 (for the degrees carry)
+    mids = [v for v in incs if v in tests]
+    if not mids:
+        rep.undecided('R-CARRY', key, where(f, f.node), 'no variable is both incremented by one and tested against 60: the minutes link of the carry chain was not recognised')
+        return
+    for v in sorted(mids):
+        first_inc = min(incs[v])
+        late = [t for t in tests[v] if t[0] > first_inc]
+        if late:
+            rep.holds('R-CARRY', key, where(f, late[0][1]), '`%s` is compared with 60 after the seconds carry has been added to it' % v)
+        else:
+            t0 = tests[v][0]
+            rep.violated('R-CARRY', key, where(f, t0[1]), '`%s` is evaluated before the seconds carry is added to `%s`: 59 min 60 s becomes 60 min and is never carried into '
+                         'the degrees - %s returns D.60 (e.g. for 0.9999999999999999 degrees: 0.6 instead of 1.0)' % (stmt_text(t0[1])[:60], v, name),
+                         expected='the minutes compared with 60 after `%s += 1`' % v, actual='compared before')
 
 
 DEC2HP_WITNESS = ('DECAngle(512.9999999999998).hpa() raised "Invalid HP Notation: 3rd decimal place greater than 5: 512.5959999999999" on the code as found: '
@@ -623,8 +699,10 @@ def digit_rules(repo, rep):
                     else:
                         rep.undecided('R-SIBLING', skey, w, '%s: sign flag not decided: %s' % (q, show(flag, 2, 80)))
             # validators: the rejected set is exactly {minutes field >= 60 or seconds field >= 60}
-            if kind in ('value', 'validate'):
+            if kind in ('value', 'validate', 'dms', 'ddm'):
                 conds = [c_ for fn_, c_, n_ in ev.raise_conds if fn_ in (q, q.split('.')[-1], f.qualname)]
+                if kind in ('dms', 'ddm') and not conds:
+                    continue            # these readers need not validate; when they do, they must not reject a valid value (below)
                 vkey = 'R-SIBLING::geodepy/angles.py::hp-validators::%s%s' % (q, tag)
                 ids = [list(d(k).atoms(deep=False))[0] for k in range(1, 5)]
                 others = set()
@@ -664,10 +742,17 @@ def digit_rules(repo, rep):
                                         continue
                                     rejected = any(vals)
                                     want_rej = (10 * d1 + d2 >= 60) or (10 * d3 + d4 >= 60)
+                                    if kind in ('dms', 'ddm') and want_rej:
+                                        continue        # what these readers do with an invalid value is not constrained
                                     if rejected != want_rej and bad is None:
                                         bad = (d1, d2, d3, d4, rejected)
+                                        bad_fill = fill[0]
                 if bad is not None:
                     d1, d2, d3, d4, rj = bad
+                    if rj and bad_fill == 9:
+                        rep.violated('R-SIBLING', vkey, w, '%s rejects the valid HP decimals .%d%d%d%d999... (minutes %d%d, seconds %d%d.999): only a minutes or seconds field of 60 or more is invalid' % (
+                            q, d1, d2, d3, d4, d1, d2, d3, d4), expected='reject iff MM >= 60 or SS >= 60', actual='rejects .%d%d%d%d999' % (d1, d2, d3, d4))
+                        continue
                     rep.violated('R-SIBLING', vkey, w, '%s %s the HP decimals .%d%d%d%d (minutes %d%d, seconds %d%d): exactly the values with a minutes or seconds field of 60 or more have to be rejected' % (
                         q, 'rejects' if rj else 'accepts', d1, d2, d3, d4, d1, d2, d3, d4), expected='reject iff MM >= 60 or SS >= 60', actual='%s .%d%d%d%d' % ('rejects' if rj else 'accepts', d1, d2, d3, d4))
                 elif undec:
